@@ -279,7 +279,7 @@ func Check13(c Case13, r *core.Rec) {
 	}
 }
 
-var c13URLs = []string{"http://h/p?a=1&b=2#f", "http://h/?a=1&a=2", "http://u:p@h:8/a/b/c?k=v#f", "foo://h/p?x=y", "foo:opaque?a=b#f", "file:///C:/d/e?q=1", "http://h/", "http://1.2.3.4/x?y", "http://[::1]/?z", "foo:/p/q?r", "wss://h/?%41=%42&&=", "http://h/a/b/../c?d=e&f"}
+var c13URLs = []string{"data:x ?", "a:b  #f", "mailto:a@b  ?q=1#x", "sc:op  #x", "foo:o  ?=", "http://h/p?a=1&b=2#f", "http://h/?a=1&a=2", "http://u:p@h:8/a/b/c?k=v#f", "foo://h/p?x=y", "foo:opaque?a=b#f", "file:///C:/d/e?q=1", "http://h/", "http://1.2.3.4/x?y", "http://[::1]/?z", "foo:/p/q?r", "wss://h/?%41=%42&&=", "http://h/a/b/../c?d=e&f"}
 
 func Gen13(t *rapid.T) Case13 {
 	var c Case13
@@ -295,6 +295,10 @@ func Gen13(t *rapid.T) Case13 {
 	}
 	if c.Scenario == "resolve" {
 		c.Ref = B(gen.Ref(t, "ref", gen.SchemeOf(string(c.URL))))
+		// a base with an opaque path resolves fragment-only references only: draw one half of the time
+		if u := string(c.URL); !strings.Contains(u, "/") && rapid.IntRange(0, 1).Draw(t, "fragref") == 0 {
+			c.Ref = B(gen.Pick(t, "fragrefv", []string{"#y", "#", "#?", "#a b", "# "}))
+		}
 	}
 	c.Touch = rapid.IntRange(0, 1).Draw(t, "touch") == 1
 	c.Report = rapid.IntRange(0, 3).Draw(t, "report") == 0
